@@ -65,6 +65,8 @@ type FuncContract struct {
 	HasCallers bool
 	Props     []string
 	Havoc     []string // extra heap keys (prefixes) to havoc at calls
+	AtExit    []Clause
+	LoopForget map[int][]string // "loopforget <n> <heap key>": loop n forgets this memory as well; the invariants carry what is needed
 	Verify    bool     // has clauses that need the body to be verified
 }
 
@@ -169,8 +171,8 @@ func loadContracts(repo string) (*Contracts, error) {
 
 var clauseKeywords = map[string]bool{
 	"func": true, "type": true, "pred": true, "fun": true, "lemma": true,
-	"requires": true, "ensures": true, "modifies": true, "invariant": true, "decreases": true,
-	"update": true, "option": true, "ghost": true, "guarded": true, "frozen": true, "props": true, "callsite": true, "havoc": true, "callers": true, "cutafter": true, "cutat": true, "pool": true, "yields": true, "crash_invariant": true,
+	"requires": true, "ensures": true, "modifies": true, "invariant": true, "decreases": true, "atexit": true,
+	"update": true, "option": true, "ghost": true, "guarded": true, "frozen": true, "props": true, "callsite": true, "havoc": true, "loopforget": true, "callers": true, "cutafter": true, "cutat": true, "pool": true, "yields": true, "crash_invariant": true,
 }
 
 func (C *Contracts) errorf(format string, a ...any) {
@@ -404,6 +406,24 @@ func (C *Contracts) parseFile(pkg, file, src string) {
 			if curF != nil {
 				curF.CutAfter = strings.TrimSpace(rest)
 			}
+		case "loopforget":
+			if curF != nil {
+				fs := strings.Fields(rest)
+				n := 0
+				if len(fs) >= 2 {
+					fmt.Sscanf(fs[0], "%d", &n)
+				}
+				if n <= 0 {
+					C.errorf("%s: loopforget <loop ordinal> <heap key>", where)
+					continue
+				}
+				if curF.LoopForget == nil {
+					curF.LoopForget = map[int][]string{}
+				}
+				for _, p := range strings.Split(strings.Join(fs[1:], " "), ",") {
+					curF.LoopForget[n] = append(curF.LoopForget[n], strings.TrimSpace(p))
+				}
+			}
 		case "havoc":
 			if curF != nil {
 				for _, p := range strings.Split(rest, ",") {
@@ -471,7 +491,7 @@ func (C *Contracts) parseFile(pkg, file, src string) {
 				gu.LHS, gu.RHS = le, re
 			}
 			curF.Updates = append(curF.Updates, gu)
-		case "requires", "ensures", "invariant", "decreases", "callsite", "cutat", "crash_invariant":
+		case "requires", "ensures", "invariant", "decreases", "atexit", "callsite", "cutat", "crash_invariant":
 			cl := Clause{Line: where}
 			body := rest
 			callee := ""
@@ -480,7 +500,7 @@ func (C *Contracts) parseFile(pkg, file, src string) {
 				callee = f2[0]
 				body = strings.TrimSpace(strings.TrimPrefix(body, callee))
 			}
-			if kw == "invariant" || kw == "decreases" {
+			if kw == "invariant" || kw == "decreases" || kw == "atexit" {
 				if curF != nil && curP == nil {
 					// loop ordinal first
 					f2 := strings.Fields(body)
@@ -522,6 +542,11 @@ func (C *Contracts) parseFile(pkg, file, src string) {
 				curF.Verify = true
 			case kw == "decreases":
 				curF.Decreases = append(curF.Decreases, cl)
+				curF.Verify = true
+			case kw == "atexit":
+				// "atexit <loop> label: expr": proved on every edge that leaves the loop, in that edge's own state
+				// (before the exits are merged), and known afterwards
+				curF.AtExit = append(curF.AtExit, cl)
 				curF.Verify = true
 			case kw == "callsite":
 				curF.CallSites = append(curF.CallSites, CallSiteReq{Callee: qual(callee), Clause: cl})
